@@ -90,6 +90,7 @@ class Sched:
         self.counter = {}
         self.errors = []      # uncaught exceptions of controlled threads (name, exception)
         self.soft = set()     # names of threads currently parked at a soft yield
+        self.timer_names = set()   # names offered to the chooser only because their timer could fire now
         self.budget_at = None # step number after which the main thread is resumed with Hang (per-scenario watchdog)
         self._filter_cache = {}
 
@@ -253,6 +254,12 @@ class Sched:
                     break
                 enabled = [t for t, s in self.state.items()
                            if s == "ready" or (s == "blocked" and self.waitfor[t]())]
+                # a sleeping / timed-out thread may also wake before a runnable one gets the processor: choosers that ask
+                # for it (schedule exploration) are offered the pending timers as further alternatives
+                sleepers = []
+                if enabled and getattr(self.chooser, "wants_timers", False):
+                    sleepers = [t for t, d in self.deadline.items() if self.state[t] == "blocked" and t not in enabled]
+                    self.timer_names = {self.names[t] for t in sleepers}
                 if not enabled:
                     timers = sorted((d, self.names[t], t) for t, d in self.deadline.items() if self.state[t] == "blocked")
                     if timers:
@@ -263,9 +270,17 @@ class Sched:
                     else:
                         self.wake[main_id] = "hang"
                         pick = main_id
-                elif len(enabled) == 1:
+                elif len(enabled) == 1 and not sleepers:
                     pick = enabled[0]
                     name = self.chooser([self.names[pick]], self)
+                elif sleepers:
+                    enabled.sort(key=lambda t: self.names[t])
+                    sleepers.sort(key=lambda t: self.names[t])
+                    name = self.chooser([self.names[x] for x in enabled + sleepers], self)
+                    pick = [x for x in enabled + sleepers if self.names[x] == name][0]
+                    if pick in sleepers:
+                        self.now = max(self.now, self.deadline[pick])
+                        self.wake[pick] = "timeout"
                 else:
                     enabled.sort(key=lambda t: self.names[t])
                     name = self.chooser([self.names[x] for x in enabled], self)
@@ -459,6 +474,8 @@ class PreemptionBounded:
     steps happen at quiescent points unless a preemption decides otherwise, and a thread that was preempted *to* keeps
     running.  At the listed step numbers the default is overridden by the k-th alternative (a preemption).  Records where
     alternatives existed, for the DFS driver."""
+    wants_timers = True       # pending timers are offered as alternatives (never taken by default)
+
     def __init__(self, preempt_at):
         self.preempt_at = dict(preempt_at)     # step -> k (1..number of alternatives)
         self.cur = None
@@ -470,11 +487,13 @@ class PreemptionBounded:
         s = self.step
         self.step += 1
         soft = sched.soft
-        if self.cur in names and self.cur not in soft:
+        timers = getattr(sched, "timer_names", set())
+        if self.cur in names and self.cur not in soft and self.cur not in timers:
             default = self.cur
         else:
-            others = [n for n in names if n not in soft]
-            default = others[0] if others else names[0]
+            others = [n for n in names if n not in soft and n not in timers]
+            rest = [n for n in names if n not in timers]
+            default = others[0] if others else (rest[0] if rest else names[0])
         alts = [n for n in names if n != default]
         if alts:
             self.branch.append((s, len(alts)))
